@@ -16,6 +16,7 @@
 (*                   stuck(why) | unsupported(what)                        *)
 (*            store  contents of every Vec allocated so far                *)
 (*            n      nodes evaluated;  max  the budget                     *)
+(*            na     objects allocated so far (next object identity)       *)
 (*            p      the program (module -> class -> definition)           *)
 (*            cf     evaluation order of calls: FALSE = as spec.md 6.7.5 / *)
 (*                   6.15 say (arguments left to right, THEN the callee);  *)
@@ -25,7 +26,8 @@
 (* status impl(why) (DESIGN 2.2 rule 2): 32-bit overflow of + - * and      *)
 (* unary minus, INT_MIN / -1, division and remainder by zero (6.9, 13.3),  *)
 (* toInt outside -?[0-9]+ in range (10.1), Vec.capacity (5.12), == and !=  *)
-(* on values of class type (6.9 vs 5.12), call depth beyond MaxDepth       *)
+(* on values of class type where structural equality (6.9) and reference   *)
+(* identity (5.12) give different answers, call depth beyond MaxDepth      *)
 (* (13.7) and the evaluator's own node budget.                             *)
 (*                                                                         *)
 (* TLC notes.  Recursion goes through ONE recursive FUNCTION, Ev: a        *)
@@ -49,8 +51,9 @@ IntV(i)  == [t |-> "i", v |-> i]
 BoolV(x) == [t |-> "b", v |-> x]
 UnitV    == [t |-> "u", v |-> 0]
 StrV(s)  == [t |-> "s", v |-> s]
-ObjV(m, c, fs)        == [t |-> "o", m |-> m, c |-> c, fs |-> fs]
-EnumV(m, c, tag, d)   == [t |-> "e", m |-> m, c |-> c, tag |-> tag, d |-> d]
+\* id: the allocation that created the object (identity; see Equality)
+ObjV(m, c, fs, id)      == [t |-> "o", m |-> m, c |-> c, fs |-> fs, id |-> id]
+EnumV(m, c, tag, d, id) == [t |-> "e", m |-> m, c |-> c, tag |-> tag, d |-> d, id |-> id]
 CloV(lam, env)        == [t |-> "c", lam |-> lam, env |-> env]
 FnV(node)             == [t |-> "f", e |-> node]
 BoundV(recv, n)       == [t |-> "m", o |-> recv, n |-> n]
@@ -121,6 +124,43 @@ MatchPat(p, v, bs) ==
                                [ok |-> FALSE, b |-> bs], p.ps)
 
 -----------------------------------------------------------------------------
+(* Equality *)
+\* == and != (spec.md 6.9): int, bool, unit by value, Str by text.  For values of class type
+\* spec.md 6.9 says structural equality and 5.12 says reference identity is samlang's default
+\* for boxed values; the answer is taken where both readings agree:
+\*   "same"  the very same allocation (or equal primitives / equal text)   -> equal under both
+\*   "ne"    some component differs                                        -> different under both
+\*   "eq"    structurally equal but separately allocated                   -> the readings differ
+\*   "unknown" functions, distinct Vecs
+RECURSIVE SameValue(_, _)
+Worse(s1, s2) ==   \* combine the verdicts of two components
+  IF s1 = "ne" \/ s2 = "ne" THEN "ne"
+  ELSE IF s1 = "unknown" \/ s2 = "unknown" THEN "unknown"
+  ELSE IF s1 = "eq" \/ s2 = "eq" THEN "eq" ELSE "same"
+SameParts(xs, ys) ==
+  IF Len(xs) # Len(ys) THEN "ne"
+  ELSE IF Len(xs) = 0 THEN "same"
+  ELSE FoldLeft(LAMBDA acc, i : IF acc = "ne" THEN acc ELSE Worse(acc, SameValue(xs[i], ys[i])),
+                "same", Ix(Len(xs)))
+\* two separately allocated objects with these parts
+SameAll(xs, ys) == LET r == SameParts(xs, ys) IN IF r = "same" THEN "eq" ELSE r
+SameValue(x, y) ==
+  IF x.t # y.t THEN "ne"
+  ELSE CASE x.t \in {"i", "b", "u", "s"} -> IF x.v = y.v THEN "same" ELSE "ne"
+         [] x.t = "o" -> IF x.id = y.id THEN "same"
+                         ELSE IF x.m # y.m \/ x.c # y.c THEN "ne" ELSE SameAll(x.fs, y.fs)
+         [] x.t = "e" -> IF x.id = y.id THEN "same"
+                         ELSE IF x.m # y.m \/ x.c # y.c \/ x.tag # y.tag THEN "ne" ELSE SameAll(x.d, y.d)
+         [] x.t = "v" -> IF x.id = y.id THEN "same" ELSE "unknown"
+         [] OTHER -> "unknown"
+
+Equality(o, x, y, st) ==
+  LET s == SameValue(x, y) IN
+  IF s = "same" THEN Res(BoolV(o = "EQ"), st)
+  ELSE IF s = "ne" THEN Res(BoolV(o = "NE"), st)
+  ELSE Impl(st, "classeq")
+
+-----------------------------------------------------------------------------
 (* Built-in classes Process, Str, Vec (spec.md 5.10 - 5.12, 10) *)
 VecOf(st, v) == st.store[v.id]
 IsPrim(v) == v.t \in {"i", "b", "u"}
@@ -156,14 +196,18 @@ VecMethod(recv, name, vs, st) ==
     [] name = "reserve"  -> IF vs[1].v < 0 THEN Impl(st, "veccap") ELSE Res(UnitV, st)
     [] name = "capacity" -> Impl(st, "capacity")
     [] name = "eq"       ->
-         \* length-and-element-wise; elements by identity, which the language defines for
-         \* values of primitive type only
-         LET ys == VecOf(st, vs[1]) IN
-         IF Len(xs) # Len(ys) THEN Res(BoolV(FALSE), st)
-         ELSE IF recv.id = vs[1].id THEN Res(BoolV(TRUE), st)
-         ELSE IF \A i \in 1..Len(xs) : IsPrim(xs[i]) /\ IsPrim(ys[i])
-              THEN Res(BoolV(\A i \in 1..Len(xs) : xs[i].v = ys[i].v), st)
-              ELSE Impl(st, "classeq")
+         \* length-and-element-wise; elements by reference identity (spec.md 5.12): defined for
+         \* primitives and for the very same object; two Strs of equal text may or may not be
+         \* the same reference
+         LET ys == VecOf(st, vs[1])
+             elem(x, y) == IF x.t = "s" THEN (IF x.v = y.v THEN "unknown" ELSE "ne") ELSE SameValue(x, y)
+             s == IF Len(xs) # Len(ys) THEN "ne"
+                  ELSE IF Len(xs) = 0 THEN "same"
+                  ELSE FoldLeft(LAMBDA acc, i : IF acc = "ne" THEN acc ELSE Worse(acc, elem(xs[i], ys[i])),
+                                "same", Ix(Len(xs)))
+         IN IF s = "ne" THEN Res(BoolV(FALSE), st)
+            ELSE IF s = "same" THEN Res(BoolV(TRUE), st)
+            ELSE Impl(st, "classeq")
     [] OTHER -> Unsupported(st, "Vec." \o name)
 
 -----------------------------------------------------------------------------
@@ -174,13 +218,6 @@ Arith2(o, x, y, st) ==
 
 Compare(o, x, y) ==
   CASE o = "LT" -> x < y [] o = "LE" -> x <= y [] o = "GT" -> x > y [] o = "GE" -> x >= y
-
-\* == and != : defined on int, bool, unit and Str (text); class-typed operands are excluded
-Equality(o, ot, x, y, st) ==
-  LET comparable == ot \in {"int", "bool", "unit", "str"}
-                    \/ (ot \in {"generic", "any"} /\ x.t \in {"i", "b", "u", "s"} /\ y.t = x.t)
-  IN IF comparable THEN Res(BoolV(IF o = "EQ" THEN x.v = y.v ELSE x.v # y.v), st)
-     ELSE Impl(st, "classeq")
 
 -----------------------------------------------------------------------------
 (* The evaluator.  ev is the recursive function Ev below; EV asks it for the value of
@@ -202,8 +239,6 @@ ClassOf(st, m, c) == st.p[m][c]
 \* the body of member n of class m.c with `this` (if a method) and the arguments bound
 Invoke(ev, m, c, n, this, vs, st, depth) ==
   IF depth >= MaxDepth THEN Impl(st, "depth")
-  ELSE IF m \notin DOMAIN st.p \/ c \notin DOMAIN st.p[m] \/ n \notin DOMAIN st.p[m][c].ms
-       THEN Stuck(st, "member " \o m \o "." \o c \o "." \o n)
   ELSE LET def == st.p[m][c].ms[n]
            base == IF def.me THEN ("this" :> this) ELSE <<>>
        IN IF Len(def.ps) # Len(vs) THEN Stuck(st, "arity " \o n)
@@ -219,8 +254,11 @@ InvokeMethod(ev, recv, n, vs, st, depth) ==
 \* what a statically resolved callee (node carries ck) does with its arguments
 ApplyStatic(ev, node, vs, st, depth) ==
   CASE node.ck = "static"  -> Invoke(ev, node.m, node.c, node.n, UnitV, vs, st, depth)
-    [] node.ck = "new"     -> IF Len(vs) = node.ar THEN Res(ObjV(node.m, node.c, vs), st) ELSE Stuck(st, "arity init")
-    [] node.ck = "variant" -> IF Len(vs) = node.ar THEN Res(EnumV(node.m, node.c, node.tag, vs), st)
+    [] node.ck = "new"     -> IF Len(vs) = node.ar
+                              THEN Res(ObjV(node.m, node.c, vs, st.na), [st EXCEPT !.na = @ + 1])
+                              ELSE Stuck(st, "arity init")
+    [] node.ck = "variant" -> IF Len(vs) = node.ar
+                              THEN Res(EnumV(node.m, node.c, node.tag, vs, st.na), [st EXCEPT !.na = @ + 1])
                               ELSE Stuck(st, "arity " \o node.n)
     [] node.ck = "builtin" -> StaticBuiltin(node.bi, vs, st)
     [] OTHER -> Unsupported(st, "callee " \o node.n)
@@ -261,7 +299,7 @@ EvalBinary(ev, e, env, st) ==
        IF ~IsOk(r) THEN r
        ELSE CASE e.op \in {"PLUS", "MINUS", "MUL", "DIV", "MOD"} -> Arith2(e.op, l.v.v, r.v.v, r.st)
               [] e.op \in {"LT", "LE", "GT", "GE"} -> Res(BoolV(Compare(e.op, l.v.v, r.v.v)), r.st)
-              [] e.op \in {"EQ", "NE"} -> Equality(e.op, e.ot, l.v, r.v, r.st)
+              [] e.op \in {"EQ", "NE"} -> Equality(e.op, l.v, r.v, r.st)
               [] e.op = "CONCAT" -> Res(StrV(l.v.v \o r.v.v), r.st)
               [] OTHER -> Unsupported(r.st, "operator " \o e.op)
 
@@ -291,7 +329,7 @@ EvalMatch(ev, e, env, st) ==
           ELSE EV(ev, e.cs[pick.i].b, [env EXCEPT !.v = pick.b], m.st)
 
 EvalNode(ev, e, env, st) ==
-  CASE e.k = "V"    -> IF e.n \in DOMAIN env.v THEN Res(env.v[e.n], st) ELSE Stuck(st, "variable " \o e.n)
+  CASE e.k = "V"    -> Res(env.v[e.n], st)
     [] e.k = "I"    -> Res(IntV(e.v), st)
     [] e.k = "Call" -> EvalCall(ev, e, env, st)
     [] e.k = "F"    -> LET o == EV(ev, e.o, env, st) IN
@@ -313,7 +351,8 @@ EvalNode(ev, e, env, st) ==
                              ELSE EV(ev, e.e, env, c.st)
     [] e.k = "Lam"  -> Res(CloV(e, env), st)
     [] e.k = "T"    -> LET r == EvalList(ev, e.es, env, st) IN
-                       IF r.st.s.k # "ok" THEN Res(UnitV, r.st) ELSE Res(ObjV(e.m, e.c, r.vs), r.st)
+                       IF r.st.s.k # "ok" THEN Res(UnitV, r.st)
+                       ELSE Res(ObjV(e.m, e.c, r.vs, r.st.na), [r.st EXCEPT !.na = @ + 1])
     [] e.k = "U"    -> LET r == EV(ev, e.e, env, st) IN
                        IF ~IsOk(r) THEN r
                        ELSE IF e.op = "!" THEN Res(BoolV(~r.v.v), r.st)
@@ -331,7 +370,7 @@ Ev[x \in Any] ==
 -----------------------------------------------------------------------------
 (* The run of a program: entry module's Main.main() (spec.md 12.6) *)
 State0(prog, budget, cf) ==
-  [out |-> <<>>, s |-> OkS, store |-> <<>>, n |-> 0, max |-> budget, p |-> prog, cf |-> cf]
+  [out |-> <<>>, s |-> OkS, store |-> <<>>, n |-> 0, na |-> 0, max |-> budget, p |-> prog, cf |-> cf]
 
 \* [out |-> lines, end |-> [k, m], n |-> nodes evaluated]
 Run(prog, entry, budget, cf) ==
